@@ -19,6 +19,8 @@ VLcgReg(r) == IF r.raised # "none" THEN "Total" ELSE IF ~r.obs.matches THEN "Tru
 Verdict(r) ==
   CASE r.ev = "range" -> VRange(r)
     [] r.ev = "pure" -> VPure(r)
+    \* the multiplier of the truncated LCG of output size w is the published constant for the smallest tabulated state size >= 2w
+    [] r.ev = "lcgmult" -> (IF r.raised # "none" THEN "Total" ELSE IF ~r.obs.same THEN "MultiplierIsThePublishedConstant" ELSE "ok")
     \* a sequence of calls with ONE seed on one generator object: every result equals that of a fresh process making the call alone
     [] r.ev = "hist" -> (IF r.raised # "none" THEN "Total"
                          ELSE IF \E i \in 1..Len(r.obs.equal_fresh) : ~r.obs.equal_fresh[i] THEN "IndependentOfEarlierCalls" ELSE "ok")
